@@ -17,6 +17,7 @@ def run(ctx, rep):
     rep.rule('R-C01-2', 'failed-set completeness in check: open failure, read failure and hash mismatch register a failed[] entry with is_bad = 1; DELETED / CHG / REP blocks are registered with is_bad = 0', 5)
     rep.rule('R-C01-3', 'under fix: wrong or missing parity levels are rewritten; the modification time is restored unless the inode collision test fails', 2)
     rep.rule('R-C01-4', 'fix reaches a creating effect for every recorded entity kind: file data, empty file, symlink, hardlink, directory, ancestors', 6)
+    C04.memhash_pairing(P, rep, 'R-C01-5')
     n = 0
     for fname in ('state_sync_process', 'state_scrub_process', 'state_check_process', 'repair_step', 'is_hash_matching', 'is_parity_matching', 'repair'):
         f = P.fn(fname)
